@@ -446,7 +446,7 @@ prop("C20",
      "throwing functors against readers, called normally and from a destructor during stack unwinding; cow_guarded "
      "write handles released by unwinding after user code threw; guarded / guarded_opt / ordered_guarded / atomic_guarded operation pairs "
      "with throwing copy/assign/compare/functor; cow_guarded writers with a throwing copy constructor; "
-     "deferred_guarded submitters (direct and queued path, detach and async) with throwing functors against "
+     "deferred_guarded submitters (direct and queued path, detach and async, value- and void-returning) with throwing functors against "
      "readers; DelayedDestructor with a throwing callback; SearchableObjectHolder with throwing predicates.",
      "Oracles: exceptions appear where documented and nowhere else (std::terminate = abort = violation); after "
      "the throw the throwing thread holds no lock of the wrapper, the mutex is free at the end and every other "
